@@ -3,6 +3,8 @@ import itertools
 
 import numpy as np
 
+import synth
+
 from vcore import clist, z, zlist
 
 TIE = 'Tie.C04'
@@ -104,6 +106,7 @@ def impl(case):
     ev = _calculate_transition_events(atom_sites=states, atom_inner_sites=inner)
     tr = Transitions(trajectory=None, diff_trajectory=None, sites=_Sites(), events=ev,
                      states=states, inner_states=inner)
+    guard = synth.InputGuard(transitions=tr, states=states, inner=inner)
     runs = {}
     for mr in MRS:
         try:
@@ -117,7 +120,7 @@ def impl(case):
                 raise
             rows = []
         runs[str(mr)] = rows
-    return {'runs': runs}
+    return {'runs': runs, 'inputs_changed': guard.changed()}
 
 
 def default_jumps(a, o):
@@ -134,7 +137,7 @@ def default_jumps(a, o):
 def oracle(case, out):
     if 'runs' not in out:
         return [('jumps/harness-error', f"{out.get('error')}: {out.get('msg')}")]
-    fs = []
+    fs = synth.inputs_clause(out, 'Jumps(transitions, minimal_residence=...)')
     dflt = []
     for a, o in enumerate(case['outer']):
         dflt.extend(default_jumps(a, o))
